@@ -77,7 +77,8 @@ impl TableBuilder for TypeDeclaration {
                 global_table: Some(table),
                 local_table: None,
             };
-            let data_type = get_data_type(self.type_expr.as_mut(), Some(name), &lookup_table);
+            let data_type =
+                get_data_type(self.type_expr.as_mut(), Some(name.to_string()), &lookup_table);
             if table
                 .enter(
                     name.to_string(),
@@ -106,11 +107,11 @@ impl TableBuilder for ProcedureDeclaration {
             let parameters = self
                 .parameters
                 .iter_mut()
-                .filter_map(|param| build_parameter(param, table, &mut local_table))
+                .filter_map(|param| build_parameter(param, &name.value, table, &mut local_table))
                 .collect();
             self.variable_declarations
                 .iter_mut()
-                .for_each(|dec| build_variable(dec, table, &mut local_table));
+                .for_each(|dec| build_variable(dec, &name.value, table, &mut local_table));
             let entry = ProcedureEntry {
                 name: name.clone(),
                 local_table,
@@ -129,8 +130,16 @@ impl TableBuilder for ProcedureDeclaration {
     }
 }
 
+/// An array type expression in a parameter or variable declaration creates a new anonymous type.
+/// Its creator is qualified with the procedure's name, so that it is distinct from every declared
+/// type and from the anonymous types of equally named variables of other procedures.
+fn anonymous_creator(proc_name: &str, name: &Identifier) -> String {
+    format!("{}.{}", proc_name, name)
+}
+
 fn build_parameter(
     param: &mut Reference<ParameterDeclaration>,
+    proc_name: &str,
     global_table: &GlobalTable,
     local_table: &mut LocalTable,
 ) -> Option<VariableEntry> {
@@ -149,7 +158,11 @@ fn build_parameter(
                 global_table: Some(global_table),
                 local_table: None,
             };
-            let data_type = get_data_type(type_expr.as_mut(), Some(name), &lookup_table);
+            let data_type = get_data_type(
+                type_expr.as_mut(),
+                Some(anonymous_creator(proc_name, name)),
+                &lookup_table,
+            );
             let param_entry = VariableEntry {
                 name: name.clone(),
                 is_ref: *is_ref,
@@ -179,6 +192,7 @@ fn build_parameter(
 
 fn build_variable(
     var: &mut Reference<VariableDeclaration>,
+    proc_name: &str,
     global_table: &GlobalTable,
     local_table: &mut LocalTable,
 ) {
@@ -196,7 +210,7 @@ fn build_variable(
             is_ref: false,
             data_type: get_data_type(
                 type_expr.as_mut(),
-                Some(name),
+                Some(anonymous_creator(proc_name, name)),
                 &LookupTable {
                     global_table: Some(global_table),
                     local_table: Some(local_table),
@@ -217,7 +231,7 @@ fn build_variable(
 
 fn get_data_type(
     type_expr: Option<&mut Reference<TypeExpression>>,
-    caller: Option<&Identifier>,
+    creator: Option<String>,
     table: &LookupTable,
 ) -> Option<DataType> {
     type_expr.and_then(|type_expr| {
@@ -229,14 +243,14 @@ fn get_data_type(
                 let size = size.as_ref().and_then(|int_lit| int_lit.value);
                 let base_type = get_data_type(
                     base_type.as_mut().map(|boxed| boxed.as_mut()),
-                    caller,
+                    creator.clone(),
                     table,
                 )
                 .map(Box::new);
-                caller.map(|creator| DataType::Array {
+                creator.map(|creator| DataType::Array {
                     size,
                     base_type,
-                    creator: creator.to_string(),
+                    creator,
                 })
             }
             NamedType(name) => {
